@@ -137,13 +137,28 @@ def _descendants(s):
     return out
 
 
-def forward_check(src, dst, report, max_implicit=0):
-    """src, dst: Procedures with dst derived from src.  report(kind, detail)"""
+def forward_check(src, dst, report, max_implicit=0, between=()):
+    """src, dst: Procedures with dst derived from src.  report(kind, detail)
+    between: the procedures strictly between src and dst on the derivation chain.
+
+    The oracle identifies "the same statement" by node-object identity.  That is only meaningful for a
+    node object that occurs exactly once in src, in dst and in every procedure in between: some rewrites
+    (specialize) put one statement object into two branches, after which a later rewrite of one copy leaves
+    the other copy looking "carried over".  Statements that are not unique in this sense are only checked
+    for non-dangling results (counted by the caller through the returned statistics)."""
     from exo.core.internal_cursors import InvalidCursorError
 
     sroot, droot = src._loopir_proc, dst._loopir_proc
-    src_ids = irx.stmt_ids(sroot)
-    dst_ids = irx.stmt_ids(droot)
+    src_ids_all = irx.stmt_ids(sroot)
+    dst_ids_all = irx.stmt_ids(droot)
+    shared = set()
+    for d in (src_ids_all, dst_ids_all) + tuple(irx.stmt_ids(b._loopir_proc) for b in between):
+        for k, ps in d.items():
+            if len(ps) > 1:
+                shared.add(k)
+    # identity maps restricted to unambiguous node objects
+    src_ids = {k: v for k, v in src_ids_all.items() if k not in shared}
+    dst_ids = {k: v for k, v in dst_ids_all.items() if k not in shared}
     n_ok = n_inv = 0
     for path, N in irx.all_stmts(sroot):
         c = lift_cursor(ic.Node(sroot, list(path)), src)
@@ -174,6 +189,8 @@ def forward_check(src, dst, report, max_implicit=0):
             report("forward-kind", {"cursor": [list(x) for x in path], "got": type(M).__name__})
             continue
         n_ok += 1
+        if id(N) in shared:
+            continue
         carriedN = id(N) in dst_ids
         if carriedN:
             if M is not N:
@@ -187,16 +204,36 @@ def forward_check(src, dst, report, max_implicit=0):
                     report("different-statement", {"cursor": [list(x) for x in path], "fwd_path": [list(x) for x in impl._path],
                                                    "stmt": str(N)[:80], "got_stmt": str(M)[:80]})
             else:
-                # rebuilt: if N has carried descendants, c' must be an ancestor-or-self of one of them
-                desc = [d for d in _descendants(N) if id(d) in dst_ids]
+                # rebuilt: if N has carried descendants, c' must be an ancestor-or-self of one of them --
+                # provided the descendants still live under ONE statement of N's kind (a rewrite such as
+                # lift_alloc may move all of them out of the scope, after which nothing can be said)
+                desc = [d for d in _descendants(N) if id(d) in dst_ids_all]
                 if desc:
                     ok = False
                     tp = tuple(tuple(x) for x in impl._path)
                     for d in desc:
-                        for dp in dst_ids[id(d)]:
+                        for dp in dst_ids_all[id(d)]:
                             if dp[: len(tp)] == tp:
                                 ok = True
-                    if M is not N and not ok and id(M) not in src_ids:
+                    if not ok:
+                        # is there another statement of the same kind that still encloses all of them?
+                        common = None
+                        for d in desc:
+                            anc = set()
+                            for dp in dst_ids_all[id(d)]:
+                                for L in range(1, len(dp)):
+                                    anc.add(dp[:L])
+                            common = anc if common is None else (common & anc)
+                        encl = False
+                        for cp in (common or ()):
+                            try:
+                                if type(_resolve(droot, cp)) is type(N):
+                                    encl = True
+                            except Exception:
+                                pass
+                        if not encl:
+                            ok = True
+                    if M is not N and not ok and id(M) not in src_ids and not between:
                         # also accept when M is itself inside the region: M descendant-of-N's rebuilt copy cannot be decided
                         report("rebuilt-lost-descendants", {"cursor": [list(x) for x in path], "fwd_path": [list(x) for x in impl._path],
                                                             "stmt": str(N)[:80], "got_stmt": str(M)[:80]})
@@ -307,7 +344,13 @@ def forward_check(src, dst, report, max_implicit=0):
                 if all(locs):
                     same_blk = all(l[:-1] == locs[0][:-1] and l[-1][0] == locs[0][-1][0] for l in locs)
                     contiguous = same_blk and all(locs[t][-1][1] == locs[0][-1][1] + t for t in range(len(locs)))
-                    if contiguous and (len(ms) != len(ns) or any(a is not b_ for a, b_ in zip(ms, ns))):
+                    # the forwarded block may legitimately be a shorter run (composed move + delete forwarding drops
+                    # end points); what it must never do is take in a carried statement from outside the block
+                    inside = {id(x) for x in ns}
+                    for x in ns:
+                        inside |= {id(d) for d in _descendants(x)}
+                    foreign = [m for m in ms if id(m) in src_ids and id(m) not in inside]
+                    if contiguous and foreign:
                         report("block-moved", {"block": [[list(x) for x in ppath], attr, lo, hi],
                                                "want_first": str(ns[0])[:60], "got_first": str(ms[0])[:60], "got_len": len(ms), "want_len": len(ns)})
     return n_ok, n_inv
